@@ -145,7 +145,7 @@ type vfE8Gated struct {
 }
 
 func vfE8NewGated() *vfE8Gated {
-	ln, err := net.Listen("tcp", "127.0.0.1:0")
+	ln, err := vfListen()
 	if err != nil {
 		panic(err)
 	}
